@@ -734,6 +734,32 @@ def evaluate(case, native):
                 if len(picked) != (1 if members & exp_avail else 0) or any(x not in exp_avail for x in picked):
                     return True, f'next() yields {nxt} while {sorted(exp_avail)} are available (group {g})'
         return False, 'registry bookkeeping agrees with the reference'
+    if kind == 'tour':
+        labels, closed, op, arg = case['pre'], case['closed'], case['op'], case['arg']
+        ref = _tour_reference
+        exp_result = None
+        if op == 'copy':
+            exp, _ = ref(labels, closed, 'insert_at', tuple(arg[0]))
+            exp, _ = ref(exp, closed, 'remove', arg[1])
+        elif op == 'insert_at':
+            exp, _ = ref(labels, closed, op, tuple(arg))
+        else:
+            exp, exp_result = ref(labels, closed, op, arg)
+        want = _tour_observations(exp, closed)
+        got = native['after']
+        for key in ('labels', 'total', 'job_activity_count', 'job_count', 'has_jobs', 'jobs', 'legs', 'end_idx', 'per_job'):
+            if got[key] != want[key]:
+                return True, f'Tour::{op}({arg}) on {labels}: {key} is {got[key]}, expected {want[key]}'
+        if not got['start_is_first'] or not got['end_is_last']:
+            return True, f'Tour::{op}({arg}) on {labels}: depot ends are not in place'
+        if exp_result is not None and native['result'] != exp_result:
+            return True, f'Tour::{op}({arg}) on {labels} returned {native["result"]}, expected {exp_result}'
+        if op == 'copy':
+            want0 = _tour_observations(labels, closed)
+            for key in ('labels', 'jobs', 'job_count', 'legs', 'per_job'):
+                if native['original'][key] != want0[key]:
+                    return True, f'after modifying a deep copy the original tour has {key} = {native["original"][key]}, expected {want0[key]}'
+        return False, 'tour agrees with the reference'
     if kind == 'statistic_sum':
         for k_ in ('cost', 'distance', 'duration', 'driving', 'serving', 'waiting', 'break_time', 'commuting', 'parking'):
             want = case['a'][k_] + case['b'][k_]
@@ -797,3 +823,41 @@ def replay_file(path):
     log(json.dumps({'native': native}, indent=1)[:3000])
     log('REPLAY:', 'reproduced' if violated else 'does not reproduce' if violated is False else 'could not run', '-', why)
     return 1 if violated else (0 if violated is False else 2)
+
+
+_TOUR_JOB_OF = {'sA': 'A', 'sB1': 'M', 'sB2': 'M', 'sC': 'C', 'sD': 'D'}
+
+
+def _tour_reference(labels, closed, op, arg):
+    labels = list(labels)
+    if op == 'insert_at':
+        single, idx = arg
+        return labels[:idx] + [single] + labels[idx:], None
+    if op == 'insert_last':
+        n_jobs = len(labels) - (2 if closed else 1)
+        return labels[:n_jobs + 1] + [arg] + labels[n_jobs + 1:], None
+    if op == 'remove':
+        keep = [x for x in labels if _TOUR_JOB_OF.get(x) != arg]
+        return keep, len(keep) != len(labels)
+    if op == 'remove_activity_at':
+        job = _TOUR_JOB_OF[labels[arg]]
+        return [x for x in labels if _TOUR_JOB_OF.get(x) != job], job
+    raise ValueError(op)
+
+
+def _tour_observations(labels, closed):
+    jobs = []
+    for x in labels:
+        j = _TOUR_JOB_OF.get(x)
+        if j and j not in jobs:
+            jobs.append(j)
+    n = len(labels)
+    legs = [[labels[i:i + 2], i] for i in range(n - 1)] if n != 1 else [[labels[0:1], 0]]
+    if not closed and n > 1:
+        legs.append([labels[n - 1:], n - 1])
+    per_job = {}
+    for j in ('A', 'M', 'C', 'D'):
+        pos = [i for i, x in enumerate(labels) if _TOUR_JOB_OF.get(x) == j]
+        per_job[j] = {'contains': j in jobs, 'index': pos[0] if pos else None, 'index_last': pos[-1] if pos else None, 'activities': len(pos)}
+    return {'labels': labels, 'total': n, 'job_activity_count': n - (2 if closed else 1), 'job_count': len(jobs), 'has_jobs': bool(jobs),
+            'jobs': sorted(jobs), 'legs': legs, 'per_job': per_job, 'end_idx': n - 1}
